@@ -248,10 +248,13 @@ def make_blocks(spec):
             tag += n
             if "complex" in dtype:
                 b = b + 1j * b[..., ::-1] if b.ndim else b * (1 + 1j)
-        elif kind == "gauss":
+        elif kind in ("gauss", "wide"):
             b = rng.normal(size=shape)
             if "complex" in dtype:
                 b = b + 1j * rng.normal(size=shape)
+            if kind == "wide":
+                # blocks of very different magnitude (dynamic range ~1e8)
+                b = b * 10.0 ** int(rng.integers(-5, 4))
         elif kind == "pos":
             b = rng.integers(1, 6, size=shape).astype("float64")
         elif kind == "lowrank":
